@@ -33,14 +33,22 @@ structure Payload where
   fill : Nat
 deriving DecidableEq, Repr, Inhabited
 
-/-- `ImmediateDialError` (the variants that matter). -/
+/-- `ImmediateDialError` (the variants `TransportManagerHandle::dial` produces, `other` for the
+rest). -/
 inductive DialErr
-  | noAddress | alreadyConnected | clogged | other
+  | noAddress | alreadyConnected | clogged | triedToDialSelf | taskClosed | other
 deriving DecidableEq, Repr
 
-/-- `SubstreamError` (the variants that matter). -/
+/-- `SubstreamError`, by the shapes `impl From<SubstreamError> for RejectReason` and
+`on_substream_open_failure` distinguish: `notConnected` = `IoError(NotConnected)`,
+`yamuxNotConnected` = `YamuxError(Io(e), _)` with `e.kind() == NotConnected`,
+`negotiationNotConnected` = `NegotiationError(IoError(NotConnected))`, `msNotConnected` =
+`NegotiationError(MultistreamSelectError(ProtocolError(IoError(e))))` with `e.kind() == NotConnected`,
+`unsupported` = `NegotiationError(MultistreamSelectError(Failed))`; `io` / `yamux` / `negotiation`
+are the same shapes with any other content. -/
 inductive SubErr
   | closed | clogged | noPeer | readFailure | negotiationTimeout | notConnected | unsupported | other
+  | yamuxNotConnected | negotiationNotConnected | msNotConnected | io | yamux | negotiation | writeFailure
 deriving DecidableEq, Repr
 
 inductive RejectReason
@@ -53,6 +61,9 @@ deriving DecidableEq, Repr
 /-- `impl From<SubstreamError> for RejectReason`. -/
 def RejectReason.ofSubErr : SubErr → RejectReason
   | .notConnected => .connectionClosed
+  | .yamuxNotConnected => .connectionClosed
+  | .negotiationNotConnected => .connectionClosed
+  | .msNotConnected => .connectionClosed
   | e => .substreamOpenError e
 
 inductive RrError
@@ -374,6 +385,9 @@ inductive Input
   | responseDone (f : InFut)
   /-- ghost: the responder of substream `sid` writes a complete response. -/
   | responderWrites (sid : Sid) (response : Payload)
+  /-- `try_send_request` / `try_send_request_with_fallback` with a full command channel: the handle
+  has taken an id from the shared counter, the command is not delivered (`Error::ChannelClogged`). -/
+  | clogged
 
 def step (s : State) : Input → State
   | .send peer request opts dialAns openAns =>
@@ -389,6 +403,7 @@ def step (s : State) : Input → State
   | .inboundRead f request => onInboundRequest s f request
   | .responseDone f => onResponseDone s f
   | .responderWrites sid response => { s with wire := s.wire ++ [(sid, response)] }
+  | .clogged => { s with nextRid := s.nextRid + 1 }
 
 /-- What the environment may do in state `s` (the hypotheses of all theorems):
 * substream ids handed out by `open_substream` are fresh (shared `fetch_add` counter): not the id
